@@ -8,10 +8,18 @@ class Obs:
     __slots__ = ('stream', 'resp', 'seen', 'seam_created', 'hang', 'handler_exc', 'environ')
 
 
+def _canon_value(x):
+    if isinstance(x, str):
+        return x
+    if hasattr(x, 'raw_filename'):
+        return _canon_upload(x)
+    return f'<{type(x).__name__}>'
+
+
 def _canon_forms(d):
     out = []
     for k, v in d.items():
-        out.append([k, v if not isinstance(v, list) else list(v)])
+        out.append([k, _canon_value(v) if not isinstance(v, list) else [_canon_value(x) for x in v]])
     return out
 
 
@@ -32,30 +40,8 @@ def _canon_upload(u):
     return {'name': u.name, 'filename': u.raw_filename, 'ctype': _ctype_of(u), 'data': data}
 
 
-def _canon_files(d):
-    out = []
-    for k, v in d.items():
-        if isinstance(v, list):
-            out.append([k, [_canon_upload(u) for u in v]])
-        else:
-            out.append([k, _canon_upload(v)])
-    return out
-
-
-def _canon_post(d):
-    out = []
-    for k, v in d.items():
-        vs = v if isinstance(v, list) else [v]
-        cv = []
-        for x in vs:
-            if isinstance(x, str):
-                cv.append(x)
-            elif hasattr(x, 'raw_filename'):
-                cv.append(_canon_upload(x))
-            else:
-                cv.append(repr(x))
-        out.append([k, cv if isinstance(v, list) else cv[0]])
-    return out
+_canon_files = _canon_forms
+_canon_post = _canon_forms
 
 
 def body_request(wire, sched, *, B, M=None, cl=None, chunked=False, ctype=None, tempmode='real',
